@@ -747,9 +747,29 @@ def d7_integral(prog, rep):
             if kk == 'un' and t[1] == 'Neg':
                 return integral(fn, t[2], depth)
             if kk == 'field' and t[3] in ('f64', '&f64'):
-                return False             # a real-valued parameter
+                root = t
+                while tag(root) in ('field', 'deref', 'ref'):
+                    root = root[1]
+                if tag(root) == 'arg':
+                    return False             # a real-valued parameter
+                if tag(t[1]) == 'downcast' and tag(t[1][1]) == 'call' and t[1][1][1] in pdb.bodies and depth < 3:
+                    # the payload of an enum value a helper returns: every payload the helper builds for that variant
+                    g = prog.func(t[1][1][1])
+                    rep.touch(t[1][1][1])
+                    rs = []
+                    for r in g.return_values():
+                        if tag(r) == 'agg' and r[1] == 'adt':
+                            vi = int(r[2].split('#')[1]) if '#' in r[2] else 0
+                            if vi == t[1][2] and t[2] < len(r[3]):
+                                rs.append(integral(g, r[3][t[2]], depth + 1))
+                        else:
+                            rs.append(None)
+                    return True if rs and all(r is True for r in rs) else (False if any(r is False for r in rs) else None)
+                return None
             if kk == 'call':
                 p = t[1]
+                if 'convert::From<' in p and p.endswith('for f64>::from') and any(('From<%s>' % it) in p for it in ('u8', 'u16', 'u32', 'i8', 'i16', 'i32', 'bool')):
+                    return True
                 if is_f64_method(p):
                     return True if f64_method_name(p) in ('floor', 'ceil', 'round', 'trunc') else False
                 if p.startswith('alea::f64') or p.startswith('alea::f32'):
